@@ -169,6 +169,26 @@ CLAIMS = {
              "num_instances is NO_LIMIT for every row, so the per-site instance rule is vacuous in the pinned table.",
         technique="two-sided validation contracts against a pinned-table oracle, checked by bounded symbolic execution of the real API",
         design_ref="DESIGN.md section 3 C10"),
+    'C13': dict(category='other',
+        text="A family of small substrate models (worker, component, ports, link, switch side, second worker, stitch node) with "
+             "delegation properties whose ids and details are symbolic (ids may coincide; each resource with only capacity, only "
+             "label, both or no delegation) is partitioned by the real generate_adms(): per partition -- delegated resources present "
+             "with exactly their own entries, no foreign entry, sub-model of the original, closure of kept interfaces (link, peer, "
+             "owning service, owner), stitch nodes everywhere -- and the original is untouched; rewrite_delegations changes only the "
+             "key. One defect repaired (node with a single kind of delegation).",
+        note=BOUNDED_NOTE + "Model family: <= 11 elements, 1..2 delegation ids; pooled delegations are not in the family.",
+        technique="contracts on the real partitioning functions checked by bounded symbolic execution over the bounded graph model",
+        design_ref="DESIGN.md section 3 C13"),
+    'C14': dict(category='other',
+        text="The real merge_adm / unmerge_adm / _update_node_delegations / snapshot / rollback bodies run through the abstract graph "
+             "interface on the in-memory shared store (combined-model handle backed by the NetworkX back end): two delegation models "
+             "sharing a stitching element are merged in both orders, unmerged, snapshotted and rolled back; union with the shared "
+             "element once, contributor sets, delegations keyed by the contributing model, order independence, sources untouched, "
+             "unmerge = inverse of merge, rollback restores the snapshot (canonical comparison by NodeID).",
+        note=BOUNDED_NOTE + "The typecast to Neo4jADMGraph inside merge_adm is substituted by the NetworkX ADM class (a handle on the "
+             "same graph id). Families of 3..4 models and longer interleavings are not explored.",
+        technique="contracts on the real merge / unmerge functions checked by bounded symbolic execution over the bounded graph model",
+        design_ref="DESIGN.md section 3 C14"),
     'C16': dict(
         text="For every label field the real Labels._set_fields is proved, for all strings, to accept exactly the documented domain "
              "(published pattern matched against the whole string with CPython regex semantics incl. Unicode classes, plus the "
